@@ -90,6 +90,16 @@ def match_interp(program) -> Interp:
                                  "Yaml2Regex.load_file": load_file_summary}, max_paths=60000)
 
 
+# thorough tier: extra rule configurations every whole-flow rule is also judged under (set by /verif/check)
+EXTRA_CONFIGS: List[Dict[str, Any]] = []
+THOROUGH_CONFIGS: List[Dict[str, Any]] = [
+    {"sections": [".text"]},
+    {"sections": [".plt", ".text"], "valid_addr_range": {"min": Sym("RANGE_MIN"), "max": Sym("RANGE_MAX")}},
+    {"style": "att", "mnemonics-full-match": True, "operands-full-match": True},
+    {"valid_addr_range": {"min": Sym("RANGE_MIN"), "max": Sym("RANGE_MAX")}, "operands-full-match": True, "style": "att"},
+]
+
+
 def match_scenarios(I: Interp, file_types=("assembly", "binary"), return_modes=("bool", "matched_addrs_list",
                     "all_instructions_string"), search_modes=("first_find", "all_finds"), only_addrs=(False, True),
                     configs=({}, {"valid_addr_range": {"min": Sym("RANGE_MIN"), "max": Sym("RANGE_MAX")}}),
@@ -101,6 +111,9 @@ def match_scenarios(I: Interp, file_types=("assembly", "binary"), return_modes=(
     mc_cls = p.find_class("MatchConfig")
     E = lambda cls, m: EnumV(p.find_class(cls), m)
     out: List[MatchScenario] = []
+    if EXTRA_CONFIGS:
+        have = [repr(sorted(c)) for c in configs]
+        configs = tuple(configs) + tuple(c for c in EXTRA_CONFIGS if repr(sorted(c)) not in have)
     for ft, rm, sm, oa, cf in itertools.product(file_types, return_modes, search_modes, only_addrs, configs):
         cfg = {"file_type": ft, "return_mode": rm, "search_mode": sm, "only_addr": oa, "config": cf}
 
